@@ -1140,3 +1140,147 @@ func genNilRecipe(r *rand.Rand, k int, pool []*chainInfo) *scenario {
 	}
 	return sc
 }
+
+// ---------------------------------------------------------------- targets between / below trusted headers
+
+// genMidRecipe: the client has already advanced; then it is asked for a height h that lies BETWEEN headers
+// it trusts (the trace starts at the trusted block just below h, not at the latest one), or BELOW the first
+// trusted header (backwards verification).  The primary serves a forged header for h that it can back
+// (equivocation / amnesia / lunatic-next signed by > 2/3 of the genuine sets, or - skipping mode - a lunatic
+// header signed by > 2/3 of the trusted set just below h).  Witnesses: (a) honest, (b) honest + accomplice
+// repeating the forgery, (c) accomplice only; every release order over the recipe index.
+// (a), (b): attack error, evidence to both sides, nothing stored for h, the honest witness stays (clause D).
+// (c): decided by clauses A-C.  Backwards: no witness is consulted by design; a forged header is outside
+// the hash chain and must not be stored (clause A, backwards), a genuine one may be.
+func genMidRecipe(r *rand.Rand, k int, pool []*chainInfo) *scenario {
+	ci := pool[(k*3+1)%len(pool)]
+	sc := &scenario{ci: ci}
+	d := &sc.desc
+	d.Stream, d.Case = "recipe-mid", k
+	d.Chain, d.ChainLen, d.Churn, d.Vals = ci.idx, ci.n, ci.churn, ci.nvals
+	n := ci.n
+	wcfg := k % 3 // a | b | c
+	place := []string{"between", "between", "between", "backwards"}[(k/3)%4]
+	kind := []string{"equivocation", "lunatic", "amnesia", "lunatic-next"}[(k/12)%4]
+	d.Mode = []string{"skipping", "sequential"}[(k/48)%2]
+	if kind == "lunatic" {
+		d.Mode = "skipping"
+	}
+	tl := [][2]int64{{1, 3}, {1, 2}, {2, 3}}[(k/6)%3]
+	if d.Mode == "sequential" {
+		tl = [2]int64{1, 3}
+	}
+	d.TrustNum, d.TrustDen = tl[0], tl[1]
+	period := time.Duration(n+50) * ci.interval * 2
+	d.PeriodMs = period.Milliseconds()
+	drift := 5 * time.Millisecond
+	d.DriftMs = 5
+	sc.par = params{chainID: ci.ch.ChainID, period: period, drift: drift, num: tl[0], den: tl[1]}
+	d.DeltaUs = 300
+	// heights: root < (mid) < h < hi   or   h < root
+	var root, mid, h, hi int64
+	withMid := (k/5)%2 == 1
+	if place == "between" {
+		root = between(r, 1, n/3)
+		hi = between(r, root+6, min64(n, root+45))
+		h = between(r, root+3, hi-1)
+		if withMid {
+			mid = between(r, root+1, h-1)
+		}
+	} else {
+		root = between(r, 4, n-3)
+		hi = between(r, root+1, min64(n, root+20))
+		h = between(r, 1, root-1)
+	}
+	d.Root = root
+	base := root // the trusted block just below h
+	if mid > 0 {
+		base = mid
+	}
+	names := []string{"a honest witness", "b honest witness and accomplice", "c accomplice only"}
+	d.Recipe = fmt.Sprintf("%s, %s: %s forgery at height %d, trusted heights before the last call: %d %d %d", place, names[wcfg], kind, h, root, mid, hi)
+	if place == "backwards" {
+		sc.coalition = pickCoalition(r, ci, "high", h, h)
+	} else if kind == "lunatic" {
+		sc.coalition = pickCoalition(r, ci, "high", base, base)
+	} else {
+		sc.coalition = pickCoalition(r, ci, "high", base, h)
+	}
+	f := buildFork(r, ci, kind, h, h, sc.coalition, "high", map[int64]bool{h: true})
+	f.desc.Kind += " (at the old height only)"
+	sc.forks = append(sc.forks, f)
+	honestPrimaryBackwards := place == "backwards" && (k/24)%2 == 1
+	p := sc.newProv(r, 0, "primary", "fork", ci.forkView(f))
+	if honestPrimaryBackwards {
+		p = sc.newProv(r, 0, "primary", "honest", ci.canonView())
+	}
+	p.reliable = true
+	sc.provs = []*prov{p}
+	add := func(kind string, view viewFn) {
+		w := sc.newProv(r, len(sc.provs), "witness", kind, view)
+		w.reliable = true
+		sc.provs = append(sc.provs, w)
+	}
+	switch wcfg {
+	case 0:
+		add("honest", ci.canonView())
+		if honestPrimaryBackwards {
+			sc.provs[1].view, sc.provs[1].desc.Kind = ci.forkView(f), "fork"
+		}
+	case 1:
+		add("honest", ci.canonView())
+		add("fork", ci.forkView(f))
+	default:
+		add("fork", ci.forkView(f))
+	}
+	if (k/7)%3 == 2 {
+		q := sc.newProv(r, len(sc.provs), "witness", "silent", ci.canonView())
+		q.desc.Rules = []rule{{Act: "noresp", HLo: 1, FromReq: 2}}
+		sc.provs = append(sc.provs, q)
+	}
+	ids := make([]int, 0, len(sc.provs)-1)
+	for i := 1; i < len(sc.provs); i++ {
+		ids = append(ids, i)
+	}
+	now := ci.time(n).Add(2 * time.Second)
+	mk := func(op string, height int64, perm []int) callDesc {
+		cd := callDesc{Op: op, Height: height, now: now, NowMs: now.Sub(ci.ch.Opt.GenesisTime).Milliseconds(), Perm: append([]int{0}, perm...)}
+		if op == "verify_header" {
+			src := ci.lbs[height].Header
+			if fh, ok := f.hdrs[height]; ok && !honestPrimaryBackwards {
+				src = fh
+			}
+			hc := *src
+			cd.hdr, cd.HdrFrom = &hc, "as served by the primary"
+		}
+		return cd
+	}
+	// how the client got ahead: by real calls, or (always for the lunatic kinds, whose forged block would
+	// break the walk over h) restored from a trusted store that already holds the later headers
+	if place == "between" && (kind == "lunatic" || kind == "lunatic-next" || (k/2)%2 == 1) {
+		d.FromStore = true
+		d.Preload = []int64{hi}
+		if mid > 0 {
+			d.Preload = append(d.Preload, mid)
+		}
+	} else {
+		d.Calls = append(d.Calls, mk("verify_at", hi, ids))
+		if mid > 0 {
+			d.Calls = append(d.Calls, mk("verify_at", mid, ids))
+		}
+	}
+	last := mk([]string{"verify_at", "verify_header"}[(k/4)%2], h, nthPerm(ids, k/3))
+	if len(ids) >= 2 && (k/9)%2 == 1 {
+		// the lowest-priority witness really replies last
+		last.Holds = map[int]hold{last.Perm[len(last.Perm)-1]: {Other: last.Perm[1], N: 2, Quiet: 20 * time.Millisecond}}
+	}
+	d.Calls = append(d.Calls, last)
+	d.InitPerm = append([]int{0}, ids...)
+	for _, f := range sc.forks {
+		d.Forks = append(d.Forks, f.desc)
+	}
+	for _, q := range sc.provs {
+		d.Providers = append(d.Providers, q.desc)
+	}
+	return sc
+}
